@@ -68,3 +68,6 @@ Definition classify_cplx := classify FC (fun x => fst x) cclose rtol_f mrel_f ma
 (* the same with the repaired do_safe_div (defect flag cg_safe_div_subnormal cleared) *)
 Definition classify_real1 := classify FR1 (fun x => x) fclose rtol_f mrel_f mabs_f 0.
 Definition classify_cplx1 := classify FC1 (fun x => fst x) cclose rtol_f mrel_f mabs_f 0.
+(* ... and with the exact zero test in do_safe_div (defect flag cg_absolute_small_guard cleared) *)
+Definition classify_real2 := classify FR2 (fun x => x) fclose rtol_f mrel_f mabs_f 0.
+Definition classify_cplx2 := classify FC2 (fun x => fst x) cclose rtol_f mrel_f mabs_f 0.
